@@ -10,7 +10,7 @@ PROP = {
     "tags": {"10": "rejected by a pre-hook, via logic", "11": "rejected, via HTTP", "12": "rejected, via UDP", "20": "accepted, via logic", "21": "accepted, via HTTP",
              "22": "accepted, via UDP", "120": "accepted but a post-hook fails, via logic", "121": "same via HTTP", "122": "same via UDP"},
     "trivial_tags": [], "min_tags": 6,
-    "reasons": {"1": "after a rejection a later hook or a post-hook ran (or hooks ran out of order)", "2": "a rejected request was answered / something besides the error was disclosed",
+    "reasons": {"902": "(trace event, not a reason) another client's pending post-response processing applied something else than its own request", "1": "after a rejection a later hook or a post-hook ran (or hooks ran out of order)", "2": "a rejected request was answered / something besides the error was disclosed",
                 "3": "a rejected request read or changed the store", "4": "the client did not receive the rejecting hook's error (client text / generic internal)",
                 "5": "request accepted by all pre-hooks but an error was returned or pre-hooks did not all run in order", "6": "accepted response not filled from the store",
                 "7": "accepted request not applied to the swarm exactly once", "8": "a step ran although a hook marked it to be skipped",
